@@ -63,6 +63,10 @@ def f16_bits(x: float, saturated: bool) -> int:
         return 0x7C00 | (0x8000 if x < 0 else 0)
 
 
+DELIM_MODE = ["exact"]  # how nested delimited objects are written by the reference ENCODER when it produces test inputs
+DELIM_RNG = random.Random(7)
+
+
 class EncError(Exception):
     def __init__(self, code):
         self.code = code
@@ -117,6 +121,11 @@ def enc(out: Bits, dt, v, top=False):
         enc_composite(inner, dt, v)
         if isinstance(dt, pydsdl.DelimitedType) and not top:
             payload = inner.bytes()
+            mode = DELIM_MODE[0]
+            if mode == "shorter" and payload:  # data from an older revision: fewer bytes than this revision defines
+                payload = payload[:DELIM_RNG.randint(0, len(payload) - 1)]
+            elif mode == "longer":  # data from a newer revision: surplus bytes the receiver must skip
+                payload = payload + bytes(DELIM_RNG.getrandbits(8) for _ in range(DELIM_RNG.randint(1, 3)))
             out.put(len(payload), 32)
             for byte in payload:
                 out.put(byte, 8)
@@ -464,9 +473,11 @@ def witness(function: str, type_name: str, workdir, model, by: typing.Optional[d
     inputs: typing.List[typing.Tuple[bytes, int]] = []
     for i in range(n_cases):
         v = gen_composite(rng, t, "zero" if i == 0 else "ones" if i == 1 else "rand")
+        DELIM_MODE[0] = ("exact", "exact", "shorter", "longer")[i % 4] if i > 1 else "exact"
         erc, eb = serialize_ref(t, v, mbytes + 8)
+        DELIM_MODE[0] = "exact"
         data = eb if erc == 0 else bytes(rng.getrandbits(8) for _ in range(mbytes))
-        kind = i % 4
+        kind = (i // 4) % 4
         if kind == 1 and data:
             data = data[:rng.randint(0, len(data))]
         elif kind == 2:
@@ -679,9 +690,11 @@ def witness_cpp(t, workdir: pathlib.Path, std: str, direction: str, n_cases: int
         exp = []
         for i in range(n_cases):
             v = gen_composite(rng, t, "zero" if i == 0 else "ones" if i == 1 else "rand")
+            DELIM_MODE[0] = ("exact", "exact", "shorter", "longer")[i % 4] if i > 1 else "exact"
             erc, eb = serialize_ref(t, v, mbytes + 8)
+            DELIM_MODE[0] = "exact"
             data = eb if erc == 0 else bytes(rng.getrandbits(8) for _ in range(mbytes))
-            kind = i % 4
+            kind = (i // 4) % 4
             if kind == 1 and data:
                 data = data[:rng.randint(0, len(data))]
             elif kind == 2:
